@@ -325,9 +325,53 @@ func c18GetBases(scratch string) (map[string]*c18Base, error) {
 }
 
 // c18Enumerate lists every (offset, width, value) mutation of the base's regions plus the graph faults.
+// c18Magic: the image's own structural magnitudes (counts, sizes, table capacities), read raw from its
+// header. A link or count set to exactly such a number, or one next to it, is where a range check written
+// against the wrong quantity (off by one, capacity instead of count) gives way.
+func c18Magic(b *c18Base) []uint64 {
+	le := func(off int64, n int) uint64 {
+		if off < 0 || off+int64(n) > int64(len(b.bytes)) {
+			return 0
+		}
+		return readLE(b.bytes[off:], n)
+	}
+	var m []uint64
+	switch b.fsType {
+	case "fat12", "fat16", "fat32":
+		bps, spc, reserved, nfats, rootEnts := le(11, 2), le(13, 1), le(14, 2), le(16, 1), le(17, 2)
+		total, fatsz := le(19, 2), le(22, 2)
+		if total == 0 {
+			total = le(32, 4)
+		}
+		if fatsz == 0 {
+			fatsz = le(36, 4)
+		}
+		if bps == 0 || spc == 0 {
+			return nil
+		}
+		clusters := (total - reserved - nfats*fatsz - (rootEnts*32+bps-1)/bps) / spc
+		capacity := map[string]uint64{"fat12": fatsz * bps * 2 / 3, "fat16": fatsz * bps / 2, "fat32": fatsz * bps / 4}[b.fsType]
+		m = []uint64{clusters + 1, clusters + 2, capacity, total}
+	case "ext4":
+		sb := int64(1024)
+		inodes, blocks, first, bpg, ipg := le(sb, 4), le(sb+4, 4), le(sb+20, 4), le(sb+32, 4), le(sb+40, 4)
+		m = []uint64{inodes, blocks, first, bpg, ipg}
+		if bpg > 0 {
+			m = append(m, (blocks+bpg-1)/bpg)
+		}
+	case "iso9660":
+		pvd := int64(32768)
+		m = []uint64{le(pvd+80, 4), le(pvd+128, 2), le(pvd+132, 4), le(pvd+156+2, 4), le(pvd+156+10, 4)}
+	case "squashfs":
+		m = []uint64{le(4, 4), le(12, 4), le(16, 4), le(26, 2), le(40, 8), le(48, 8), le(64, 8), le(72, 8), le(80, 8)}
+	}
+	return m
+}
+
 func c18Enumerate(b *c18Base) []c18Mut {
 	var out []c18Mut
 	out = append(out, b.graph...)
+	magic := c18Magic(b)
 	for _, rg := range b.regions {
 		for off := rg.Off; off < rg.Off+rg.Len && off < int64(len(b.bytes)); off++ {
 			for _, w := range []int{1, 2, 4, 8} {
@@ -346,6 +390,17 @@ func c18Enumerate(b *c18Base) []c18Mut {
 					}
 					seen[v] = true
 					out = append(out, c18Mut{Base: b.name, Region: rg.Name, Off: off, Width: w, Value: v})
+				}
+				if w >= 2 {
+					for _, mg := range magic {
+						for _, v := range []uint64{mg - 1, mg, mg + 1} {
+							if v > max || seen[v] {
+								continue
+							}
+							seen[v] = true
+							out = append(out, c18Mut{Base: b.name, Region: rg.Name, Off: off, Width: w, Value: v, Note: "image-derived magnitude"})
+						}
+					}
 				}
 			}
 		}
@@ -482,7 +537,7 @@ func init() {
 	core.Register(&core.Check{
 		ID:    "C18",
 		Level: "fault_enumeration",
-		Rule: "valid base images (FAT12/16/32, ext4 in two library configurations and one made by mke2fs with a multi-extent sparse file, ISO9660 plain/Rock Ridge/Joliet, squashfs uncompressed and gzip) are built once; their structural regions are located by independent parsers (boot sector/BPB, FSInfo, in-use FAT entries, root and sub directory entries; superblock, group descriptors, bitmaps, in-use inodes with their extent headers, extent leaf blocks, directory blocks; volume descriptors, directory records, path table; squashfs superblock and the heads of every table); within each region every byte offset x width {1,2,4,8} x values {0,1,max,max-1,sign bit,old+1,old-1} is applied on a copy-on-write overlay, plus targeted graph faults (FAT self-loop, 2-cycle, cross-link, out-of-range/free/bad links); each corrupted image is opened and walked (ReadDir on every directory, bounded read loop + ReadFile + Stat on every file) in a worker child with a read budget of 64x the image and a per-case CPU budget; monitors: panics, fatal deaths (journal attribution), CPU budget, non-progressing reads, TotalAlloc vs 8x image + 4 MiB, read volume. The enumeration is deterministic (the quick tier takes every k-th mutation); non-trivial = the image was still opened and walked; distinct = distinct mutation",
+		Rule: "valid base images (FAT12/16/32, ext4 in two library configurations and one made by mke2fs with a multi-extent sparse file, ISO9660 plain/Rock Ridge/Joliet, squashfs uncompressed and gzip) are built once; their structural regions are located by independent parsers (boot sector/BPB, FSInfo, in-use FAT entries, root and sub directory entries; superblock, group descriptors, bitmaps, in-use inodes with their extent headers, extent leaf blocks, directory blocks; volume descriptors, directory records, path table; squashfs superblock and the heads of every table); within each region every byte offset x width {1,2,4,8} x values {0,1,max,max-1,sign bit,old+1,old-1} and, for widths >= 2, the image's own structural magnitudes read raw from its header (cluster count and FAT capacity; block, inode and per-group counts; volume and table sizes; squashfs counts and table offsets), each -1/+0/+1, is applied on a copy-on-write overlay, plus targeted graph faults (FAT self-loop, 2-cycle, cross-link, out-of-range/free/bad links); each corrupted image is opened and walked (ReadDir on every directory, bounded read loop + ReadFile + Stat on every file) in a worker child with a read budget of 64x the image and a per-case CPU budget; monitors: panics, fatal deaths (journal attribution), CPU budget, non-progressing reads, TotalAlloc vs 8x image + 4 MiB, read volume. The enumeration is deterministic (the quick tier takes every k-th mutation); non-trivial = the image was still opened and walked; distinct = distinct mutation",
 		Assumptions: []string{"quick tier: a fixed every-k-th subset of the enumeration plus all graph faults; thorough: the full enumeration", "panics are keyed by filesystem type + innermost library function + normalised message, so each distinct crash site is one finding"},
 		MinSigs:   map[string]int{"quick": 2000, "thorough": 50000},
 		CPUSec:    30,
